@@ -1121,7 +1121,9 @@ func faultPart() runner.Part {
 								return res
 							}
 							full := out.Len()
-							res.States++
+							if ctx.Shard == 0 {
+								res.States++
+							}
 							for q := 0; q < full; q++ {
 								if (idx+q)%ctx.Of != ctx.Shard {
 									continue // every shard takes every Of-th quota of every combination
